@@ -89,6 +89,11 @@ def judge(case):
             a = _call(ev, env, seeded, k)
             b = _call(fn, env, seeded, k)
             same = a[0] == b[0] and (sut.same_value(a[1], b[1]) if a[0] == "group" else a[1] == b[1])
+            if same and b[0] == "group" and set(env) >= set(M.all_fields(prog)):
+                # independent of anything both sides might share (a process-wide cache): the reference interpreter's route
+                msg = common.check_routing(prog, env, b)
+                if msg:
+                    viol.append("%s layout: generated function: %s | inputs=%r | %s" % (layout, msg, env, text))
             if not same:
                 viol.append("%s layout: generated function gave %r, evaluator gave %r | inputs=%r | %s" % (layout, b, a, env, text))
     nt = prog["body"]["k"] == "if" and (prog["salt"] is not None or bool(prog["splitters"]))
